@@ -4,4 +4,4 @@ Require Extraction.
 Require Import ExtrOcamlBasic.
 From GQL.model Require Import Base Utf8 Lexer Ast Parser Prog ParseQuery ParseSchema Json Format Schema Walk Rules Rules2 Validate Link Vars Path Ops.
 Extraction "model.ml" dev_of_ids dump_lex blockStringValue decode_rune encode_rune
-  dump_parse_query dump_parse_schema dump_json_roundtrip dump_format_query dump_format_schema dump_format_loaded mk_fopts parse_prelude dump_load_with dump_validate_with dump_link_with dump_vars_with dump_argmap_with dump_path_roundtrip.
+  dump_parse_query dump_parse_schema dump_parse_schemas dump_json_roundtrip dump_format_query dump_format_schema dump_format_loaded mk_fopts parse_prelude dump_load_with dump_validate_with dump_link_with dump_vars_with dump_argmap_with dump_path_roundtrip.
